@@ -18,10 +18,11 @@ Import ListNotations.
 Open Scope Z_scope.
 
 (* (1) lastSeriesID bounds, in every reachable state, the ref of every series record and every
-   tombstone record of the durable WAL (checkpoint and segments), of every head series and of
-   every reference the client cached; hence a reference allocated for a new series is greater
-   than all of them — after any number of restarts, with any series_state.json content and fast
-   startup on or off. *)
+   tombstone record of the durable WAL (checkpoint and segments), of every head series, of every
+   reference the client cached and — since fix 422818037d — of every chunk found in the head-chunk
+   files at the last restart; hence a reference allocated for a new series is greater than all
+   of them — after any number of restarts, with any series_state.json content and fast startup on
+   or off (fix 38fca1216f: the state file can only raise the id). *)
 Theorem C22_ref_fresh : forall ops a,
   let m := run ops in
   by_ref (head m) (a_cref a) = None -> by_lset (head m) (a_l a) = None ->
@@ -29,8 +30,12 @@ Theorem C22_ref_fresh : forall ops a,
   crt = [RSeries (last m + 1) (a_l a)] /\
   (forall x r, In x (wal m) -> rec_alloc_ref x = Some r -> r < last m + 1) /\
   (forall s, In s (head m) -> s_ref s < last m + 1) /\
-  (forall p, In p (cache m) -> fst p < last m + 1).
-Proof. exact fresh_ref_above. Qed.
+  (forall p, In p (cache m) -> fst p < last m + 1) /\
+  (* head-chunk files: cs is what was on disk at the last restart of the history *)
+  (forall ops1 cl fo fn sf mv cs wbl ea alive ops2 c,
+     ops = ops1 ++ ORestart cl fo fn sf mv cs wbl ea alive :: ops2 ->
+     forallb (fun o => negb (is_restart o)) ops2 = true -> In c cs -> ck_ref c < last m + 1).
+Proof. exact fresh_ref_above_chunks. Qed.
 
 (* non-vacuity: a history with a gc'd series, a checkpoint, a stale state file read by fast
    startup and a restart, after which a series is created *)
@@ -52,6 +57,14 @@ Example C22_ref_fresh_nonvacuous :
   append1 (last m) (head m) (mkApp 0 7 300 true false)
   = (3, [mkS 3 7 [7]; mkS 2 1 []; mkS 1 0 []], 3, [RSeries 3 7], [RSample 3 7 300]).
 Proof. vm_compute. repeat split; auto. Qed.
+
+Example C22_ref_fresh_chunks_nonvacuous :
+  (* a head-chunk file is the only thing that still knows ref 5 *)
+  let ops := [OTx [mkApp 0 0 100 true false];
+              ORestart true false true (Some (0, 0, true)) min_int64 [mkChunk 5 true 10 [9]] [] [] [1]] in
+  last (run ops) = 5 /\ wal (run ops) = [RSeries 1 0; RSample 1 0 100] /\
+  last (run_old ops) = 1.
+Proof. vm_compute. repeat split; reflexivity. Qed.
 
 (* (2) Under the two conditions the property text names —
      * the client passes 0 or a reference it was handed for the same labels in this process
@@ -93,15 +106,16 @@ Example C22_labels_stable_nonvacuous :
   ops_ok init ex_ops /\ client_ok (cache (run ex_ops)) (mkApp 0 7 300 true false).
 Proof. vm_compute. intuition (try lia; try discriminate; auto). Qed.
 
-(* (4) REFUTED without the second condition: the head-chunk files the implementation leaves behind
-   do not satisfy it.  Witness = the operations and inputs OBSERVED on the real tsdb.DB in the
-   corpus history "ooo-chunk-file-outlives-series" of harness/cmd/h_c22 (replayed by every run of
-   the check; the model agrees with the implementation on it): series {l=1} (ref 2) has an
-   out-of-order chunk m-mapped into a head-chunk file, is garbage-collected, and its series record
-   leaves the WAL through a checkpoint while the chunk file survives (another series still has a
-   live chunk in it).  After a restart lastSeriesID is 1, so the new series {l=2} is handed ref 2;
-   after the next restart loadWAL attaches the old out-of-order chunk of {l=1} to it
-   (oooMmappedChunks[2]) and a query returns the sample appended to {l=1} under {l=2}. *)
+(* (4) The code BEFORE fix 422818037d (model: run_old = replay that ignores the refs of the
+   head-chunk files and stores the state file's id unconditionally) violated (1) for chunk files
+   and, through it, the second condition of (2).  Witness = the operations and inputs OBSERVED on
+   the real tsdb.DB before the fix in the corpus history "ooo-chunk-file-outlives-series" of
+   harness/cmd/h_c22: series {l=1} (ref 2) has an out-of-order chunk m-mapped into a head-chunk
+   file, is garbage-collected, and its series record leaves the WAL through a checkpoint while the
+   chunk file survives.  After a restart lastSeriesID was 1, so the new series {l=2} was handed
+   ref 2; after the next restart loadWAL attached the old out-of-order chunk of {l=1} to it and a
+   query returned the sample appended to {l=1} under {l=2}.  The same history is replayed on the
+   fixed code by every run of the check (regression case). *)
 Definition witness_ops : list op :=
   [OTx [mkApp 0 0 550 true false; mkApp 0 1 550 true false];
    OTx [mkApp 1 0 1000 true false; mkApp 2 1 1000 true false];
@@ -134,17 +148,17 @@ Definition witness_ops : list op :=
    ORestart true false false None 6000 [mkChunk 1 false 1900 [0]; mkChunk 1 false 2800 [0]; mkChunk 1 false 3700 [0]; mkChunk 1 false 4600 [0]; mkChunk 2 true 775 [1]; mkChunk 1 false 6850 [0]] [] [] [1; 2];
    OTx [mkApp 0 3 8650 true false]].
 
-Theorem C22_chunk_file_ref_reuse_refuted :
+Theorem C22_chunk_file_ref_reuse_old_refuted :
   exists ops,
     (* the client is disciplined and all sf ids are fine; only the chunk-file condition fails *)
     (forall n, match nth_error ops n with
-               | Some (OTx apps) => tx_ok (run (firstn n ops)) apps
+               | Some (OTx apps) => tx_ok (run_old (firstn n ops)) apps
                | _ => True
                end) /\
     (* a ref handed out after a restart is NOT greater than every ref in a surviving head-chunk file *)
-    (exists cs, In (mkChunk 2 true 775 [1]) cs /\ In (RSeries 2 2) (wal (run ops))) /\
-    head_pure (run ops) = false /\
-    In (2, [2; 1]) (query_head (run ops)).
+    (exists cs, In (mkChunk 2 true 775 [1]) cs /\ In (RSeries 2 2) (wal (run_old ops))) /\
+    head_pure (run_old ops) = false /\
+    In (2, [2; 1]) (query_head (run_old ops)).
 Proof.
   exists witness_ops. split; [|split; [|split]].
   - intros n. do 31 (destruct n as [|n]; [vm_compute; intuition (try lia; auto)|]).
@@ -153,3 +167,9 @@ Proof.
   - vm_compute. reflexivity.
   - vm_compute. intuition.
 Qed.
+
+(* the fixed replay on the same disk content: lastSeriesID is 2 after the restart that used to
+   yield 1, so the next series gets ref 3 *)
+Example C22_fixed_on_old_witness :
+  last (run_old (firstn 27 witness_ops)) = 1 /\ last (run (firstn 27 witness_ops)) = 2.
+Proof. vm_compute. split; reflexivity. Qed.
